@@ -477,6 +477,7 @@ def r5(ctx):
     O = X.Origins(b, P)
     # "some field carries an explicit tag": `any(|f| f.tag.is_some())`, or negated `all(|f| f.tag.is_none())`
     anys = []
+    widened = []
     explicit_when = {}       # call location -> truth value of the call that means "an explicit tag exists"
     for cs in b.calls():
         if cs.name not in ("any", "all"):
@@ -486,6 +487,12 @@ def r5(ctx):
             if a[0] == "agg" and a[1] == "closure":
                 cb = P.bodies.get("%s::%s" % (b.crate, a[2]))
                 names = {c2.name for c2 in cb.calls()} if cb is not None else set()
+                # the predicate looks at the component's own tag and at nothing else: a second criterion (the tag a referenced
+                # type carries, say) switches automatic tagging off for SETs in which nothing is textually tagged
+                extra = sorted(names - {"is_some", "is_none", "deref", "as_ref", "tag"})
+                other_switches = [1 for bb_, t_ in (cb.switches() if cb is not None else ()) if t_.get("opty") != "bool"]
+                if cb is not None and (extra or other_switches):
+                    widened.append((cs.loc(), extra or ["a match on another value"]))
                 if "is_some" in names and "is_none" not in names:
                     pol = True
                 elif "is_none" in names and "is_some" not in names:
@@ -502,6 +509,9 @@ def r5(ctx):
         probs.append("builds %s instead of only Tag::ContextSpecific" % [v for v, _, _ in aggs])
     if any(not re.fullmatch(r"\$\d+\.0|index|\(?\$\d+\)?\.0", a) and "0" not in a.split(".")[-1:] for _, a, _ in aggs):
         probs.append("tag number is `%s`, not the enumerate index" % [a for _, a, _ in aggs])
+    if widened:
+        probs.append("the `any explicit tag` predicate at %s also looks at %s: components count as explicitly tagged although no tag "
+                     "was written for them" % (widened[0][0], ", ".join(widened[0][1])))
     if not anys or not enum:
         probs.append("the `any explicit tag` test or the enumerate() is gone")
     else:
